@@ -7,6 +7,10 @@ import re
 HERE = os.path.dirname(os.path.dirname(os.path.abspath(__file__)))
 
 
+def sig_source(r, chk):
+    return chk.get("signatures")
+
+
 def main():
     mut = json.load(open(os.path.join(HERE, "evidence", "mutants.json")))
     seeded = json.load(open(os.path.join(HERE, "evidence", "seeded.json")))
@@ -32,15 +36,31 @@ def main():
     for r in seeded["results"]:
         meta = json.load(open(os.path.join(HERE, "seeded", r["id"], "meta.json")))
         chk = r.get("checks", {}).get(r["property"], {})
-        status = "neutralised by a fix (see meta.json)" if r.get("status") == "neutralised" else (
-            r["property"] if chk.get("detected") else "**missed**")
-        sig = (chk.get("signatures") or [""])[0].replace("signature: ", "")
+        others = [k for k, v in r.get("checks", {}).items() if v.get("detected") and k != r["property"]]
+        if r.get("status") == "neutralised":
+            status = "neutralised by a fix (see meta.json)"
+        elif r.get("status") == "out_of_scope":
+            status = "outside the property's domain (see meta.json)"
+        elif chk.get("detected"):
+            status = r["property"] + ("".join(", " + o for o in others))
+        elif others:
+            status = "**" + ", ".join(others) + "** (not by " + r["property"] + ")"
+        else:
+            status = "**missed**"
+        if not sig_source(r, chk):
+            pass
+        anychk = chk if chk.get("signatures") else next((v for v in r.get("checks", {}).values() if v.get("signatures")), {})
+        sig = (anychk.get("signatures") or [""])[0].replace("signature: ", "")
         files = ", ".join(os.path.basename(f) for f in meta.get("files_touched", []))
         needs = re.sub(r"\s+", " ", meta.get("needs", "")).strip("# ").replace("|", "/")[:110]
         lines.append(f"| {r['id']} | {files} | {needs} | {status} | `{sig}` |")
     lines.append("")
-    lines.append(f"Detected: {seeded['detected']} of {seeded['active']} active seeded changes "
-                 f"({seeded['total'] - seeded['active']} neutralised by a repair of the underlying weakness).")
+    by_other = sum(1 for r in seeded["results"] if r.get("status", "active") == "active"
+                   and not r.get("checks", {}).get(r["property"], {}).get("detected")
+                   and any(v.get("detected") for v in r.get("checks", {}).values()))
+    lines.append(f"Detected by the owning property's check: {seeded['detected']} of {seeded['active']} active seeded changes; "
+                 f"{by_other} more are detected by another property's check (noted in the table); "
+                 f"{seeded['total'] - seeded['active']} are not counted (neutralised by a repair of the underlying weakness, or judged outside the property's domain - see their meta.json).")
     block = "\n".join(lines)
     p = os.path.join(HERE, "DESIGN.md")
     s = open(p).read()
